@@ -985,3 +985,36 @@ def r_duplicate_keys(r, prog):
         else:
             r.finding('duplicate-key-accepted:%s' % f.path, ins[0].span, '%s does not turn a duplicate key (insert returned Some) into an error on every path' % f.path)
     r.floor(2)
+
+
+# --------------------------------------------------------------------------- C12.7: a request that fits is never refused
+CAPACITY_REFUSALS = {
+    "slice_codec::buffer::slice::SliceInputSource::<'a>::does_buffer_have_at_least": [['Lt(remaining(arg1),arg2)']],
+    "slice_codec::buffer::slice::SliceOutputTarget::<'a>::does_buffer_have_at_least": [['Lt(remaining(arg1),arg2)']],
+    "<slice_codec::buffer::slice::SliceOutputTarget<'_> as slice_codec::buffer::OutputTarget>::write_bytes_into_reserved_exact":
+        [['get_mut(arg1.buffer,range(arg2)) is not Some'], ['Lt(len(get_mut(arg1.buffer,range(arg2)) as Some.0),len(arg3))', 'get_mut(arg1.buffer,range(arg2)) is Some']],
+    "<slice_codec::buffer::vec::VecOutputTarget<'_> as slice_codec::buffer::OutputTarget>::write_bytes_into_reserved_exact":
+        [['get_mut(arg1.buffer,range(arg2)) is not Some'], ['Lt(len(get_mut(arg1.buffer,range(arg2)) as Some.0),len(arg3))', 'get_mut(arg1.buffer,range(arg2)) is Some']],
+}
+
+
+def r_capacity_refusals_exact(r, prog):
+    """The end-of-buffer error of the fixed-size targets and sources is built exactly when fewer bytes remain than were asked for (and, for a
+    write into a reservation, when the reservation is not inside the buffer or is shorter than the bytes): the conditions whose edges dominate
+    each construction of the error are the recorded ones, nothing more (a stricter test refuses a request that fits: a zero-length write at
+    the end of the buffer) and nothing less."""
+    import guards as _g
+    for path, want in sorted(CAPACITY_REFUSALS.items()):
+        f = prog.fns.get(path)
+        if f is None and 'VecOutputTarget' in path and not any('VecOutputTarget' in a for a in prog.adts):
+            continue      # a configuration without the growable target (no alloc)
+        if f is None:
+            raise AnchorMissing('capacity check %s' % path)
+        sites = [a for a in aggregates(prog, 'slice_codec::error::ErrorKind', None, crates=('slice_codec',)) if a['fn'] is f and not f.blocks[a['bb']].get('cleanup')]
+        got = sorted(_g.guard_set(prog, f, a['bb']) for a in sites)
+        if got == sorted(want):
+            r.ok('%s refuses exactly when %s' % (path.rsplit('::', 1)[-1] + ' of ' + path.split('::')[3].split('<')[0], ' or '.join(' and '.join(w) for w in want)))
+        else:
+            r.finding('capacity-refusal-condition:%s' % path, f.span,
+                      '%s builds its end-of-buffer error under %s; expected %s: a request that fits is refused (or one that does not is let through)' % (path, got, sorted(want)))
+    r.floor(3)
